@@ -1,0 +1,12 @@
+//go:build verif
+// +build verif
+
+package memcache
+
+import "net"
+
+// VerifNewServerConn exposes newServerConn to the verification harness (verif builds only),
+// so that a ServerConn can be served over a net.Pipe from another package.
+func VerifNewServerConn(conn net.Conn) *ServerConn {
+	return newServerConn(conn)
+}
